@@ -10,18 +10,44 @@ Inductive seen_t :=
 | OA (granted alive_before alive_after : bool)
 | ON.
 
+(* the executor runs on miniredis: expiry_inclusive = true *)
 Inductive case :=
-| CPeriod (quota period : Z) (ops : list pop) (obs : list pobs)
+| CPeriod (cfg : pcfg) (base_ms : Z) (ops : list pop) (obs : list pobs)
 | CToken (rt bs : Z) (base_ms : Z) (ninst : nat) (ops : list top) (obs : list seen_t).
+
+(* the circuit breaker of go-zero's redis client is not modelled; its decision is the oracle
+   [brk] of an op, read off the error class.  It is ACCEPTED only where the real breaker can
+   reject at all: protection = 5 failed commands must be in its window, and one call is at most
+   2 commands (EVALSHA, EVAL) after the run's initial NOSCRIPT, i.e. at least 3 calls failed
+   before (2*2+1 = 5 < 6 <= 2*3+1). *)
+Definition brk_min_failed_calls : Z := 3.
 
 Definition token_cfg (rt bs : Z) : tcfg := mkCfg rt bs (BStr "{tk}.tokens") (BStr "{tk}.ts").
 
 (* ------------------------------------------------------------------ agreement *)
 Definition pobs_eqb (a b : pobs) : bool :=
   match a, b with
-  | Some (c, e), Some (c', e') => pcode_eqb c c' && Bool.eqb e e'
-  | None, None => true
+  | PAns c e, PAns c' e' => pcode_eqb c c' && Bool.eqb e e'
+  | PTtlIs t, PTtlIs t' => opt_eqb (opt_eqb Z.eqb) t t'
+  | PNone, PNone => true
   | _, _ => false
+  end.
+
+(* every "breaker open" oracle comes after enough failed calls *)
+Fixpoint pbrk_ok (failed : Z) (ops : list pop) (obs : list pobs) : bool :=
+  match ops, obs with
+  | PTake _ brk :: ops', PAns _ e :: obs' =>
+    (brk || (brk_min_failed_calls <=? failed)) && pbrk_ok (if e then failed + 1 else failed) ops' obs'
+  | _ :: ops', _ :: obs' => pbrk_ok failed ops' obs'
+  | _, _ => true
+  end.
+
+Fixpoint tbrk_ok (failed : Z) (ops : list top) (obs : list seen_t) : bool :=
+  match ops, obs with
+  | TAllow _ _ _ _ brk :: ops', OA _ b a :: obs' =>
+    (brk || (brk_min_failed_calls <=? failed)) && tbrk_ok (if (b && negb a)%bool then failed + 1 else failed) ops' obs'
+  | _ :: ops', _ :: obs' => tbrk_ok failed ops' obs'
+  | _, _ => true
   end.
 
 Definition alive_of (s : tstate) (i : nat) : bool :=
@@ -33,9 +59,9 @@ Fixpoint tagree (c : tcfg) (s : tstate) (ops : list top) (obs : list seen_t) : b
   | o :: ops', ob :: obs' =>
     let '(s', r) := tstep c s o in
     match o, ob, r with
-    | TAllow i _ _ _, OA g b a, TR g' a' _ =>
+    | TAllow i _ _ _ _, OA g b a, TR g' a' _ =>
       Bool.eqb g g' && Bool.eqb a a' && Bool.eqb b (alive_of s i)
-    | TAllow _ _ _ _, _, _ => false
+    | TAllow _ _ _ _ _, _, _ => false
     | _, ON, TU => true
     | _, _, _ => false
     end && tagree c s' ops' obs'
@@ -44,8 +70,8 @@ Fixpoint tagree (c : tcfg) (s : tstate) (ops : list top) (obs : list seen_t) : b
 
 Definition agrees (c : case) : bool :=
   match c with
-  | CPeriod q p ops obs => list_eqb pobs_eqb (prun q p pinit ops) obs
-  | CToken rt bs base n ops obs => tagree (token_cfg rt bs) (tinit base n) ops obs
+  | CPeriod cfg base ops obs => list_eqb pobs_eqb (prun cfg (pinit true base) ops) obs && pbrk_ok 0 ops obs
+  | CToken rt bs base n ops obs => tagree (token_cfg rt bs) (tinit true base n) ops obs && tbrk_ok 0 ops obs
   end.
 
 (* ------------------------------------------------------------------ the property *)
@@ -72,8 +98,8 @@ Fixpoint local_bound_ok (I cap : Z) (calls : list (Z * Z * bool)) : bool :=
 Fixpoint token_walk (rt bs : Z) (b : bucket) (down : bool) (ops : list top) (obs : list seen_t)
                     (acc : list (nat * (Z * Z * bool))) : bool * list (nat * (Z * Z * bool)) :=
   match ops, obs with
-  | TAllow i now n _ :: ops', OA g before after :: obs' =>
-    if (before && negb down)%bool then
+  | TAllow i now n _ brk :: ops', OA g before after :: obs' =>
+    if (before && negb down && brk)%bool then      (* the command reached a reachable store *)
       let '(b', e) := bucket_take rt bs b (unix_s now) n in
       let '(ok, acc') := token_walk rt bs b' down ops' obs' acc in
       (Bool.eqb g e && after && ok, acc')
@@ -89,9 +115,9 @@ Definition calls_of (i : nat) (acc : list (nat * (Z * Z * bool))) : list (Z * Z 
 
 Definition prop_ok (c : case) : bool :=
   match c with
-  | CPeriod q p ops obs =>
-    if (1 <=? p) && forallb pop_wf ops
-    then list_eqb pobs_eqb (sp_prun q p sp_pinit ops) obs
+  | CPeriod cfg base ops obs =>
+    if (1 <=? pperiod cfg) && forallb pop_wf ops
+    then list_eqb pobs_eqb (sp_prun cfg (sp_pinit true base) ops) obs
     else true
   | CToken rt bs base n ops obs =>
     if (1 <=? rt) && (rt <=? 1000000000) && (0 <=? bs) && (0 <=? base) && twf base ops then
@@ -102,6 +128,6 @@ Definition prop_ok (c : case) : bool :=
 
 Definition model_obs (c : case) :=
   match c with
-  | CPeriod q p ops obs => (prun q p pinit ops, [])
-  | CToken rt bs base n ops obs => ([], trun (token_cfg rt bs) (tinit base n) ops)
+  | CPeriod cfg base ops obs => (prun cfg (pinit true base) ops, [])
+  | CToken rt bs base n ops obs => ([], trun (token_cfg rt bs) (tinit true base n) ops)
   end.
